@@ -113,10 +113,12 @@ specs = {
     ])'''),
 
  "c05": dict(doc="C05 -- every generated token verifies and delivers the same header and claims.",
-   mods=["Jwt.Props.C05"], files=["Jwt/Props/C05.lean"], gen=0,
-   level="Lean theorem C05_roundtrip: for every builder/callback/token, under explicit laws of the delegated parts (jansson load(dump t)=t for the two objects, non-empty MAC/signature, the primitive's own sign->verify law, possibly across providers), the generated token is accepted by a checker holding the corresponding key and pinned alg, and the header/claims it parses are exactly the per-token objects (builder content + typ/alg + iat/nbf/exp per C10). Proved from C11 (decode(encode x)=x, URL alphabet has no dot), exact alg naming/parsing over generated tables, pinning, gates, jwt_strcmp = 0 <-> equal. Provider mathematics and the ECDSA r||s re-framing inside the provider glue are sampled: every key type x admissible alg x random JSON trees x both provider pairs, >=150 (quick) / 4096 (thorough) ECDSA signatures per curve with short r/s counted.",
-   assume=["PARTIAL: verify_sign law of OpenSSL/GnuTLS, PSS parameter compatibility, DER handling and the r||s padding arithmetic in the provider glue are assumed in the theorem and sampled by the suite"],
-   body='''    p384 = K.gen_key("ec", "P-384", ctx.scratch)
+   mods=["Jwt.Props.C05", "Jwt.Props.C05Ec"], files=["Jwt/Props/C05.lean", "Jwt/Props/C05Ec.lean", "Jwt/Lemmas/EcFrame.lean"], gen=1,
+   level="Lean theorem C05_roundtrip: for every builder/callback/token, under explicit laws of the delegated parts (jansson load(dump t)=t for the two objects, non-empty MAC/signature, the primitive's own sign->verify law, possibly across providers), the generated token is accepted by a checker holding the corresponding key and pinned alg, and the header/claims it parses are exactly the per-token objects (builder content + typ/alg + iat/nbf/exp per C10). Proved from C11 (decode(encode x)=x, URL alphabet has no dot), exact alg naming/parsing over generated tables, pinning, gates, jwt_strcmp = 0 <-> equal. The ECDSA r||s framing inside both providers' glue is modelled literally (Jwt/EcFrame.lean, constants regenerated from the two sign-verify.c) and proved for every pair of integers below the field size, every leading-zero pattern and all four provider pairs (C05_frame, C05_unframe_len, C05_unframe_frame, C05_ecdsa_law, C05_roundtrip_ecdsa: the law left assumed for ES* is about the mathematical pair (r,s) only); the model is tied to the glue by running the real sign/verify paths on chosen (r,s) through interposed primitives (harness/ecframe.c). Provider mathematics is sampled: every key type x admissible alg x random JSON trees x both provider pairs, plus ECDSA volume runs.",
+   assume=["PARTIAL: the sign->verify law of the OpenSSL/GnuTLS primitives (for ES*: on integer pairs), PSS parameter compatibility and the libraries' DER coding (gnutls_decode_rs_value returns INTEGER content octets, gnutls_encode_rs_value takes unsigned octets, BN_bn2bin is minimal big-endian) are assumed in the theorems and exercised by the suites"],
+   body='''    import ecframe
+    ecframe.run(ctx, model_ok, deep)
+    p384 = K.gen_key("ec", "P-384", ctx.scratch)
     F.run_suites(ctx, model_ok, deep, [
         ("ecdsa-volume", lambda w, p, t, r: S.ecdsa_volume_suite(w, p, t, r, [("p256", p.keys["p256"], "ES256"), ("p384", p384, "ES384")]), S.falsify_roundtrip,
          "2500 (quick) / 12000 (thorough) ES256 and ES384 signatures made under GnuTLS and verified under OpenSSL, a fifth as many the other way round; every token also compared with the model and its signature checked by the independent verifier; short r / s counted in oracle_answers", False),
